@@ -148,8 +148,12 @@ AddHardLinkIso == /\ Room(tree)
                          /\ Log([a |-> "AddHardLink", ons |-> "iso", old |-> <<i>>, nns |-> "udf", new |-> p], t2)
                   /\ UNCHANGED <<iso, used, ncls, gen, nref, filled>>
 
-\* rm_file(udf_path=p): the content and every name of it, in both namespaces
-RmFile == /\ \E p \in {x \in Editable(tree) : tree[x].k = "file"} :
+\* rm_file(udf_path=p): the content and every name of it, in both namespaces.
+\* Not enumerated for zero-length files after a reopen: an image does not record which empty
+\* files are links of each other (they own no sectors), so which names rm_file takes along is
+\* not determined by what the user built (PyCdlibModel.tla allows either; property C07).
+\* rm_hard_link of such names stays in.
+RmFile == /\ \E p \in {x \in Editable(tree) : tree[x].k = "file" /\ ~(tree[x].b = "z" /\ gen > 0)} :
                \E t2 \in {Drop(tree, {q \in DOMAIN tree : tree[q].c = tree[p].c})} :
                  /\ tree' = t2
                  /\ iso' = [i \in {j \in DOMAIN iso : iso[j].c # tree[p].c} |-> iso[i]]
